@@ -19,6 +19,9 @@ from ..util import diff, load_corpus, norm, short, vdiff
 ID = "C14"
 LEVEL = "model_checking"
 ENGINE = "E2 history explorer"
+# a case that fails inside a long-lived worker (which has parsed other inputs before) but not in a brand-new interpreter is itself a
+# counter-example to "the result is a function of the DDL text, the flags and the run() arguments only"
+LEAK_IS_VIOLATION = True
 RULE = ("case = (input, complete call history h of run() variants on ONE parser object); every prefix of h is a visited "
         "state, invariants (result == fresh-object result; earlier results unchanged; args unchanged; no files) are checked "
         "after every call. non-trivial = history has >= 2 calls on a non-empty input; distinct by (input, history). "
@@ -46,7 +49,19 @@ INPUTS = {
     "raises": ("CREATE TABLE t (a int);\nCREATE TABLE ( ( ;\nCREATE TABLE w (z int);", {"silent": False}),
     "inline_blk": ("CREATE TABLE t (\n a int, /* one */\n b int -- two\n);", {}),
     "empty": ("", {}),
+    # inputs that END with one of the per-run scanner variables in a non-default state (measured, see extra_coverage)
+    "set_last": ("CREATE TABLE t (a int);\nCREATE TABLE u (b int);\nSET y = 2;", {}),
+    "open_block": ("CREATE TABLE t (a int);\nCREATE TABLE u (b int);\n/* never closed", {}),
+    "open_inline": ("CREATE TABLE t (a int);\nCREATE TABLE u (b int /* half", {}),
+    "skip_last": ("CREATE TABLE t (a int);\nGO", {}),
+    "regex": ("CREATE EXTERNAL TABLE p (y int) STORED AS TEXTFILE TBLPROPERTIES ('k1'='v1');\nCREATE EXTERNAL TABLE r (x string) ROW FORMAT SERDE "
+              "'a.b.RegexSerDe' WITH SERDEPROPERTIES (\"input.regex\" = \"(a|b)\") STORED AS TEXTFILE;", {}),
+    "lt_last": ("CREATE TABLE t (a int, m MAP<STRING, INT>);\nSELECT a FROM t WHERE a < 5 AND f(b;", {}),
+    # statements aimed at tables that other inputs define ("t", "s.t"): alone these raise ValueError
+    "alter_only": ("ALTER TABLE t ADD CONSTRAINT u9 UNIQUE (a);\nCREATE INDEX i9 ON t (a);", {}),
+    "alter_only_s": ("ALTER TABLE s.t ADD COLUMN z int;", {}),
 }
+SCAN_VARS = ["set_line", "set_was_in_line", "multi_line_comment", "statement", "block_comments", "skip", "new_statement"]
 OPS = [dict(output_mode=m, group_by_type=g, json_dump=j)
        for m in ("sql", "hql", "bigquery") for g in (False, True) for j in (False, True)]
 CARRIERS = ["is_table", "sequence", "last_token", "columns_def", "after_columns", "check", "last_par", "lp_open",
@@ -73,11 +88,63 @@ def gen_cases(tier):
     for i, rec in enumerate(load_corpus()):
         ctor = {k: v for k, v in rec["init"].items() if k in ("normalize_names", "silent")}
         cases.append({"kind": "corpus", "idx": i, "ddl": rec["ddl"], "ctor": ctor, "run": rec["run"]})
+    # cross-object histories: input J run on its own object first, then input I on a new object; I's result must be the one a brand-new
+    # process computes for I alone (prepare() below), and J's returned result must not change
+    for a in names:
+        for b in names:
+            cases.append({"kind": "pair", "first": a, "second": b})
     seeds = sorted({0, 1, 2, 3, int(os.environ.get("VERIF_SEED") or 0) % 4294967295})
     for nme in names:
         for sd in seeds:
             cases.append({"kind": "seed", "heavy": True, "input": nme, "hashseed": sd, "regen": tier == "thorough" or nme in ("trail_cmt", "alter")})
     return cases
+
+
+_SOLO = {}
+PAIR_OPS = [0, 3, 8]
+
+
+def prepare(tier, only=None):
+    """solo digests of every input x PAIR_OPS, each computed by a brand-new interpreter that parses nothing else"""
+    from ..runner import HarnessError
+
+    for nme, (ddl, ctor) in INPUTS.items():
+        if only and nme != only:
+            continue
+        p = subprocess.run([sut.PYTHON, "-c", _SEED_PROG, sut.root(), json.dumps([ddl, ctor, [OPS[i] for i in PAIR_OPS]])],
+                           env=dict(os.environ, PYTHONHASHSEED="0", PYTHONDONTWRITEBYTECODE="1"), capture_output=True, text=True, cwd=sut.root())
+        line = [l for l in p.stdout.splitlines() if l.startswith("DIGESTS ")]
+        if not line:
+            raise HarnessError("solo subprocess failed: " + p.stderr[-800:])
+        _SOLO[nme] = json.loads(line[0][8:])
+
+
+def _pair_case(case):
+    from simple_ddl_parser import DDLParser
+
+    (d1, c1), (d2, c2) = INPUTS[case["first"]], INPUTS[case["second"]]
+    if case["second"] not in _SOLO:  # fresh-interpreter confirmation of a single case
+        prepare("quick", only=case["second"])
+    diffs = []
+    try:
+        first = DDLParser(d1, **c1).run()
+    except Exception:  # noqa
+        first = None
+    snap = copy.deepcopy(first)
+    for n, oi in enumerate(PAIR_OPS):
+        try:
+            r = ["ok", DDLParser(d2, **c2).run(**OPS[oi])]
+        except Exception as e:  # noqa
+            r = ["exc", type(e).__name__, str(e)[:120]]
+        dg = hashlib.sha1(json.dumps(r, sort_keys=True, default=str).encode()).hexdigest()
+        if dg != _SOLO[case["second"]][n]:
+            diffs.append(diff("input %r parsed by a new object after another object parsed input %r, %s" % (case["second"], case["first"], json.dumps(OPS[oi])),
+                              "depends-on-earlier-object", "digest %s of the result a brand-new process computes" % _SOLO[case["second"]][n][:12], short(r, 400)))
+            break
+    if first != snap:
+        diffs.append(vdiff("result returned for input %r after input %r was parsed by another object" % (case["first"], case["second"]),
+                           "earlier-result-mutated", snap, first))
+    return {"diffs": diffs, "nontrivial": bool(d1.strip()) and bool(d2.strip()), "outcome": "pair", "transitions": 1 + len(PAIR_OPS), "traces": 1}
 
 
 def _call(p, op):
@@ -107,10 +174,14 @@ def _state(p, last):
     lx = p.lexer
     st = {"comments": list(getattr(p, "comments", [])), "block_comments": list(getattr(p, "block_comments", [])),
           "statement": getattr(p, "statement", None), "set_line": getattr(p, "set_line", None),
-          "mlc": getattr(p, "multi_line_comment", None),
+          "mlc": getattr(p, "multi_line_comment", None), "swl": getattr(p, "set_was_in_line", None), "skip": getattr(p, "skip", None),
+          "lexer_state": getattr(lx, "state", None),
           "lexer": {a: getattr(lx, a, None) for a in CARRIERS},
           "last": hashlib.sha1(json.dumps(last, sort_keys=True, default=str).encode()).hexdigest()}
     return hashlib.sha1(json.dumps(st, sort_keys=True, default=str).encode()).hexdigest()
+
+
+_PERT = [[]]
 
 
 def _history(ddl, ctor, ops):
@@ -131,6 +202,11 @@ def _history(ddl, ctor, ops):
             opc = dict(op)
             r = _call(p, op)
             states.add(_state(p, r))
+            if n == 0:
+                pert = [v for v in SCAN_VARS if getattr(p, v, None)] + ["lexer." + a for a in CARRIERS if getattr(p.lexer, a, None)]
+                if getattr(p.lexer, "state", None):
+                    pert.append("lexer.state")
+                _PERT[0] = pert
             if norm(r) != norm(refs[n]):
                 diffs.append(vdiff("call %d %s" % (n, json.dumps(op)), "rerun-differs" if n else "fresh-objects-differ",
                                    refs[n], r))
@@ -206,6 +282,8 @@ def _seed_case(case):
 def evaluate(case):
     if case["kind"] == "seed":
         return _seed_case(case)
+    if case["kind"] == "pair":
+        return _pair_case(case)
     if case["kind"] == "hist":
         ddl, ctor = INPUTS[case["input"]]
         ops = [OPS[i] for i in case["hist"]]
@@ -214,15 +292,28 @@ def evaluate(case):
         ops = [case["run"], case["run"], {k: v for k, v in case["run"].items() if k != "output_mode"}]
     diffs, states, trans = _history(ddl, ctor, ops)
     return {"diffs": diffs, "nontrivial": bool(ddl.strip()) and len(ops) >= 2, "outcome": ",".join(sorted(states))[:200],
-            "state_ids": sorted(states), "states": 0, "transitions": trans, "traces": 1}
+            "state_ids": sorted(states), "states": 0, "transitions": trans, "traces": 1,
+            "perturbed": {case["input"]: list(_PERT[0])} if case["kind"] == "hist" else {}}
 
 
 def extra_coverage(tier, cases, results):
     ids = set()
+    pert = {}
     for r in results:
         ids.update(r.get("state_ids", []))
-    return {"states": len(ids), "state_rule": "distinct canonical states (accumulators, pending statement, lexer carriers, "
+        for nme, vs in (r.get("perturbed") or {}).items():
+            for v in vs:
+                pert.setdefault(v, set()).add(nme)
+    return {"states": len(ids), "left_non_default_after_first_run": {k: sorted(v)[:4] for k, v in sorted(pert.items())}, "state_rule": "distinct canonical states (accumulators, pending statement, lexer carriers, "
             "digest of last result) reached over all histories"}
+
+
+def vacuity(tier, cases, results, cov):
+    need = ["set_was_in_line", "multi_line_comment", "statement", "block_comments", "skip", "lexer.state", "lexer.lt_open", "lexer.lp_open", "lexer.is_table"]
+    miss = [v for v in need if v not in cov.get("left_non_default_after_first_run", {})]
+    if miss:
+        return "no input leaves these per-run variables in a non-default state after run(): %s" % miss
+    return None
 
 
 def features(case):
@@ -230,6 +321,9 @@ def features(case):
 
 
 def snippet(case):
+    if case["kind"] == "pair":
+        return ("from simple_ddl_parser import DDLParser\nfirst = DDLParser(%r, **%r).run()\nprint(DDLParser(%r, **%r).run())  # compare with a new process that runs only this line\n"
+                % (INPUTS[case["first"]] + INPUTS[case["second"]]))
     if case["kind"] == "seed":
         return "# run the 12 run() variants of INPUTS[%r] under different PYTHONHASHSEED values and compare" % case["input"]
     if case["kind"] == "hist":
@@ -243,6 +337,8 @@ def snippet(case):
 
 
 def describe(case):
+    if case["kind"] == "pair":
+        return {"first_object": INPUTS[case["first"]][0][:200], "second_object": INPUTS[case["second"]][0][:200], "second_run_args": [OPS[i] for i in PAIR_OPS]}
     if case["kind"] == "hist":
         ddl, ctor = INPUTS[case["input"]]
         return {"ddl": ddl, "ctor": ctor, "history": [OPS[i] for i in case["hist"]]}
